@@ -37,6 +37,7 @@ type footprint struct {
 	reslice  map[*Cell]bool // true while every assignment seen is a self-reslice
 	targets  []modTarget
 	visiting map[ast.Node]bool
+	depth    int // nesting of contract-less callees scanned in place
 }
 
 func (e *Exec) havocLoop(st *State, d loopDesc, spec *LoopSpec) {
@@ -560,7 +561,15 @@ func (e *Exec) scanCallWrites(st *State, call *ast.CallExpr, fp *footprint, info
 	origin := fn.Origin()
 	c := e.prog.contractFor(origin)
 	if c == nil {
-		return // no contract: the call itself will be rejected when executed
+		// no contract: executed in place (see inlineTarget); its writes belong to the loop's footprint
+		if inModule(origin.Pkg()) && fp.depth < 6 {
+			if d := e.prog.decls[origin]; d != nil && d.Body != nil {
+				fp.depth++
+				e.scanWrites(st, d.Body, fp, e.prog.declPkg[origin].TypesInfo)
+				fp.depth--
+			}
+		}
+		return
 	}
 	if c.Inline {
 		if d := e.prog.decls[origin]; d != nil {
